@@ -1,5 +1,5 @@
-(* C08 -- SMARTS level: the tokenizer _tokenize as it is now (Model.Tokenize.tok_step + the final checks including the
-   pending-negation test of fix 1719a3d), smarts_tokenize (bracket bodies go through Query.query_parse), the query bond
+(* C08 -- SMARTS level: smarts_tokenize (_tokenize = Model.Tokenize.tokenize_raw; bracket bodies go through
+   Query.query_parse), the query bond
    that QueryContainer.add_bond makes of a bond token, and the text form of results used by the correspondence runner
    harness/checks/C08.py.  Definitions only. *)
 From Coq Require Import ZArith List String Ascii Bool.
@@ -9,28 +9,7 @@ Import ListNotations.
 Open Scope Z_scope.
 
 (* ------------------------------------------------------------------------------------------------------------ *)
-(* 1. _tokenize: the loop is Tokenize.tok_step; the code after the loop                                           *)
-
-Definition tok_finish_now (st : tstate) : pyres (list token) :=
-  if tt_is st 5 then ISm
-  else if tt_is st 7 then
-    if truthy (t_pend st) then
-      match t_pend st with
-      | PdChars (c :: _) => match Tokenize.py_int [c] with Ok v => Ok (rev ((6, PInt v) :: t_toks st)) | Err e => Err e end
-      | _ => Err OtherError
-      end
-    else ISm
-  else if tt_is st 11 then ISa                      (* a '!' with no bond symbol after it *)
-  else Ok (rev (flushed st)).
-
-Definition tokenize_now (s : string) : pyres (list token) :=
-  match tok_loop tok_step t_init (list_ascii_of_string s) with
-  | Ok st => tok_finish_now st
-  | Err e => Err e
-  end.
-
-(* ------------------------------------------------------------------------------------------------------------ *)
-(* 2. smarts_tokenize                                                                                             *)
+(* 1. smarts_tokenize                                                                                             *)
 
 Inductive stoken :=
 | SAtom (p : Query.parsed)          (* (0, dict) *)
@@ -49,13 +28,13 @@ Definition smarts_token (t : token) : pyres stoken :=
   end.
 
 Definition smarts_tokenize (s : string) : pyres (list stoken) :=
-  match tokenize_now s with
+  match tokenize_raw s with
   | Ok ts => map_res smarts_token ts
   | Err e => Err e
   end.
 
 (* ------------------------------------------------------------------------------------------------------------ *)
-(* 3. the query bond made of a bond token: QueryContainer.add_bond -> QueryBond(order) for an int or a list,
+(* 2. the query bond made of a bond token: QueryContainer.add_bond -> QueryBond(order) for an int or a list,
       the QueryBond itself for a ring-marked token; QueryBond.__init__ sorts and removes duplicates                *)
 
 Definition qbond_of_payload (p : payload) : pyres qbond :=
@@ -68,15 +47,17 @@ Definition qbond_of_payload (p : payload) : pyres qbond :=
 
 (* the bond token between two atoms of  "C" ++ spelling ++ "C" *)
 Definition bond_of_spelling (sp : string) : pyres qbond :=
-  match tokenize_now ("C" ++ sp ++ "C") with
+  match tokenize_raw ("C" ++ sp ++ "C") with
   | Ok [(0, PStr "C"%string); (_, p); (0, PStr "C"%string)] => qbond_of_payload p
   | Ok [(0, PStr "C"%string); (0, PStr "C"%string)] => Ok (mkQB [1] None)      (* no symbol: single (both atoms aliphatic) *)
+  | Ok (_ :: _ :: _ :: _ :: _) => Err IncorrectSmiles     (* parser(): '2 bonds in a row' (sp over the bond characters: every
+                                                              token between the two atoms is a bond token) *)
   | Ok _ => Err OtherError
   | Err e => Err e
   end.
 
 (* ------------------------------------------------------------------------------------------------------------ *)
-(* 4. text form of results (correspondence runner)                                                                *)
+(* 3. text form of results (correspondence runner)                                                                *)
 
 Open Scope string_scope.
 Definition l2s (l : list ascii) : string := string_of_list_ascii l.
@@ -102,7 +83,7 @@ Definition show_qbond (q : qbond) : string := show_zs (qb_ord q) ++ show_opt sho
 Definition show_stoken (t : stoken) : string :=
   match t with SAtom p => "a{" ++ show_parsed p ++ "}" | STok t => show_token t end.
 
-Definition b_tokens (inputs : list string) := batch (fun s => show_res show_tokens (tokenize_now s)) inputs.
+Definition b_tokens (inputs : list string) := batch (fun s => show_res show_tokens (tokenize_raw s)) inputs.
 Definition b_stokens (inputs : list string) :=
   batch (fun s => show_res (fun l => String.concat " " (map show_stoken l)) (smarts_tokenize s)) inputs.
 Definition b_parse (inputs : list string) := batch (fun s => show_res show_parsed (query_parse (s2l s))) inputs.
@@ -122,7 +103,7 @@ Definition b_bmatch (q : qbond) (bonds : list lbond) (expected : string) : bool 
 
 Close Scope string_scope.
 (* ------------------------------------------------------------------------------------------------------------ *)
-(* 5. calc_labels, whole rows: (neighbors, heteroatoms, hybridization, explicit hydrogens, in_ring, sorted ring sizes)
+(* 4. calc_labels, whole rows: (neighbors, heteroatoms, hybridization, explicit hydrogens, in_ring, sorted ring sizes)
       of an atom and bond._in_ring (code after fix 23974ef: a special bond is never a ring bond), given the SSSR    *)
 Definition label_row (g : mol) (sssr : list (list Z)) (n : Z) : Z * Z * Z * Z * bool * list Z :=
   let '(nb, het, hyb, eh) := labels_of (atom_env g n) in
